@@ -9,8 +9,8 @@ SALTS = 8
 STEP_BUDGET = 1200
 MAX_SIZE = 20
 RULE = ('odd runs sweep a systematic enumeration: every node shape ([negated] operator over literals and double negations, 94 shapes) in every '
-        'small literal context (as premise with 0-1 literal premises and a literal conclusion; as conclusion with 0-2 literal '
-        'premises; 31 contexts), plus a scale sweep (n = 1..20 copies of one letter in a disjunction / conjunction against n-1, n, n+1 distinct letters, invalid and valid variants, answer known by construction); the quick tier sweeps all of it in one logic per distinct set of truth-functional rule implementations '
+        'small literal context (as premise with 0-2 literal premises and a literal conclusion; as conclusion with 0-2 literal '
+        'premises; 55 contexts), plus a scale sweep (n = 1..20 copies of one letter in a disjunction / conjunction against n-1, n, n+1 distinct letters, invalid and valid variants, answer known by construction); the quick tier sweeps all of it in one logic per distinct set of truth-functional rule implementations '
         '(groups read from the rule classes), the thorough tier in every logic; even runs = one generated argument over sentence letters and truth-functional operators only '
         '(<=4 letters, depth<=3 quick / <=4 thorough, total size<=20, <=2 biconditionals, 0-3 premises, 30% mutated library examples; 10% with 5-9 further premises repeating one literal alone or as a conjunct) in one of '
         'the 57 logics (stratified), one of the 4 optimisation-option combinations, a seeded tie-break '
@@ -89,6 +89,11 @@ def _contexts():
         for q in LITS:
             if p < q:
                 out.append(((p, q), 'X'))           # literal, literal |- X
+    for p in LITS:
+        for q in LITS:
+            if p < q:
+                for c in LITS:
+                    out.append((('X', p, q), c))    # X, literal, literal |- literal
     return out
 CONTEXTS = _contexts()
 ENUM_SIZE = len(SHAPES) * len(CONTEXTS)
